@@ -53,6 +53,26 @@ class Model:
     def one(self, fid, args):
         return self.batch([(fid, args)])[0]
 
+    def call(self, fid, args):
+        """synchronous call through a persistent driver process (for peers that answer dynamically)"""
+        if getattr(self, "_proc", None) is None or self._proc.poll() is not None:
+            self._proc = subprocess.Popen([self.driver, "-i"], stdin=subprocess.PIPE, stdout=subprocess.PIPE, text=True, bufsize=1)
+        self._proc.stdin.write(enc_case(fid, args) + "\n")
+        self._proc.stdin.flush()
+        line = self._proc.stdout.readline()
+        if not line:
+            raise RuntimeError("driver died")
+        return dec_out(line.rstrip("\n"))
+
+    def close(self):
+        if getattr(self, "_proc", None) is not None:
+            try:
+                self._proc.stdin.close()
+                self._proc.wait(timeout=5)
+            except Exception:  # noqa: BLE001
+                self._proc.kill()
+            self._proc = None
+
     def kernel_crosscheck(self, limit=300, max_ints=4000):
         """Re-evaluate a sample of the logged cases with vm_compute inside Coq; returns (n, error or None)."""
         sample, seen = [], 0
